@@ -73,6 +73,10 @@ def gamma_callable(tag, arg):
         return lambda c, k, mu, s2, team, rank: s2 / (c * c)
     if tag == "Z":
         return lambda c, k, mu, s2, team, rank: 0.0
+    if tag == "T":
+        # mathematically the default sqrt(sigma_squared)/c, but computed from the `team` argument (the players the callback is
+        # handed): a callback may read them, so they must hold the tau-inflated PRIOR values whenever it is called
+        return lambda c, k, mu, s2, team, rank: math.sqrt(sum(p.sigma * p.sigma for p in team)) / c
     raise ValueError(tag)
 
 
@@ -109,7 +113,7 @@ def teams_tokens(teams):
 
 def rate_line(g):
     toks = ["RATE", g["kind"], g.get("leaves", "c"), f2h(g["beta"]), f2h(g["kappa"]), f2h(g["tau"]),
-            "1" if g["ls"] else "0", g["gamma"][0], f2h(g["gamma"][1]),
+            "1" if g["ls"] else "0", "D" if g["gamma"][0] == "T" else g["gamma"][0], f2h(g["gamma"][1]),
             "-" if g["tauopt"] is None else f2h(g["tauopt"]),
             "-" if g["lsopt"] is None else ("1" if g["lsopt"] else "0"),
             g["oc"][0]]
@@ -528,7 +532,7 @@ def tm_bias_budget(g):
         cm = 2.0 if g["kind"] == "TMP" else 1.0
         order = sorted(range(n), key=lambda i: key[i])          # stable
         pos = {i: k for k, i in enumerate(order)}
-        cb = gamma_callable(*g["gamma"])
+        cb = gamma_callable(*g["gamma"]) if g["gamma"][0] != "T" else None      # "T" is the default, read off the team argument
         for i in range(n):
             if IS_PART[g["kind"]]:
                 opp = [order[k] for k in (pos[i] - 1, pos[i] + 1) if 0 <= k < n]
